@@ -60,7 +60,7 @@ Theorem C02_precommit_justified :
   forall (E : env) (height : Z) (lc : option voteset) (ins : list input) (h r : Z) (b : bid),
     powers_nonneg (e_vals E) ->
     In (OSignVote PRECOMMIT h r (Some b)) (concat (snd (run E (init_state E height lc) ins))) ->
-    Polka E (votes_of ins) h r (Some b) /\ In (fst b) (blocks_of ins).
+    Polka E (votes_of ins) h r (Some b) /\ held (blocks_of ins) (fst b).
 Proof. exact precommit_justified. Qed.
 Print Assumptions C02_precommit_justified.
 
